@@ -57,6 +57,48 @@ def geo_score(pts, a, b, kind, order):
     return None
 
 
+def gcost_ref(pts, red, cost, eps=1e-16):
+    """Independent float reference of the global reconstruction cost from its DEFINITION (piecewise-linear interpolation through the
+    breakpoints; segments of <= 2 points contribute 0; divisor n + #segments - 1; R2 clipped at 0). Returns (value, conclusive):
+    not conclusive when a ratio metric meets y (or y_hat) within rounding of 0, where the eps guard amplifies rounding to O(1)."""
+    pts = np.asarray(pts, float)
+    n = len(pts)
+    y_all = pts[:, 1]
+    ymax = float(np.max(np.abs(y_all))) + 1e-300
+    tot, conclusive = 0.0, True
+    for a, b in zip(red, red[1:]):
+        if b - a + 1 <= 2:
+            continue
+        x, y = pts[a:b + 1, 0], pts[a:b + 1, 1]
+        m = (y[-1] - y[0]) / (x[-1] - x[0])
+        yh = y[0] + m * (x - x[0])
+        if cost == 'r2':
+            tot += float(np.sum(np.square(y - yh)))
+            continue
+        noise = 64 * np.finfo(float).eps * (abs(m) * float(np.max(np.abs(x))) + ymax)
+        if np.any(np.abs(y) < 1e6 * noise) or np.any(np.abs(yh) < 1e6 * noise) or np.any(y < 0) or np.any(yh < 0):
+            conclusive = False
+        if cost == 'rmsle':
+            tot += float(np.sum(np.square(np.log(y + 1) - np.log(yh + 1))))
+        elif cost == 'rmspe':
+            tot += float(np.sum(np.square((y - yh) / (y + eps))))
+        elif cost == 'rpd':
+            tot += float(np.sum(np.abs((y - yh) / (np.maximum(y, yh) + eps))))
+        else:
+            tot += float(np.sum(2.0 * np.abs(yh - y) / (np.abs(y) + np.abs(yh) + eps)))
+    total = n + (len(red) - 1) - 1
+    if cost == 'r2':
+        tss = float(np.sum(np.square(y_all - np.mean(y_all))))
+        v = 1.0 - tot if tss == 0 else 1.0 - tot / tss
+        if tss < 1e6 * np.finfo(float).eps * ymax * ymax * n:
+            conclusive = False
+    elif cost in ('rmsle', 'rmspe'):
+        v = float(np.sqrt(tot / total))
+    else:
+        v = tot / total
+    return (0.0 if v < 0 else v), conclusive
+
+
 class Oracles:
     def __init__(self, pts, dist, cost, order):
         import kneeliverse.linear_fit as lf
@@ -203,7 +245,7 @@ def wf_failures(n, red, rem):
 def run_case(ctx, which, pts, cfg, family, site_prefix='rdp.'):
     """Real call + C01 predicate + correspondence.  Returns dict(real=…, model=…, orc=…) or None."""
     n = len(pts)
-    if 'int_dtype' not in cfg and n and np.all(pts == np.floor(pts)) and np.max(np.abs(pts)) < 2 ** 20:
+    if 'int_dtype' not in cfg and n and np.all(pts == np.floor(pts)) and np.max(np.abs(pts)) < 2 ** 47:
         cfg = dict(cfg, int_dtype=ctx.rng.random() < 0.3)
         if cfg['int_dtype']:
             ctx.tag('input:int64-dtype')
